@@ -178,12 +178,18 @@ class handle_unparsable:
     def ensures(fix_even_unparsable, initial_exit_code, linting_result, formatter, result, old):
         return (
             # --fix-even-unparsable: nothing is filtered, the exit code is passed through
-            (result == initial_exit_code and linting_result.g_fixable_lint == old.linting_result.g_fixable_lint)
+            (result == initial_exit_code and linting_result.g_fixable_lint == old.linting_result.g_fixable_lint
+             and linting_result.g_unfixable_lint == old.linting_result.g_unfixable_lint)
             if fix_even_unparsable else
             # otherwise: 1 exactly when an UNSUPPRESSED template/parse error blocks fixing ...
             (result == (1 if has_live_tmp_prs(linting_result) else 0)
              # ... and a (single) file with ANY template/parse error, even a suppressed one, keeps no applicable fix
-             and implies(single_file(linting_result) and has_tmp_prs(linting_result), linting_result.g_fixable_lint == 0)))
+             and implies(single_file(linting_result) and has_tmp_prs(linting_result), linting_result.g_fixable_lint == 0)
+             # discarding fixes only ever turns fixable violations into unfixable ones
+             and linting_result.g_unfixable_lint >= old.linting_result.g_unfixable_lint
+             and implies(not has_tmp_prs(linting_result),
+                         linting_result.g_fixable_lint == old.linting_result.g_fixable_lint
+                         and linting_result.g_unfixable_lint == old.linting_result.g_unfixable_lint)))
 
     def inv_1(linting_result):
         return True
